@@ -77,6 +77,30 @@ type dmSock struct {
 	activeWild bool          // a TCP connection opened actively from a socket bound to the wildcard address
 	protos     int           // network protocols its reservation covers: 1 IPv4, 3 IPv4+IPv6 (dual-stack IPv6 socket); 0 means 1
 	fake       *fakeEP       // registered directly with the stack's demultiplexer (no socket, no port reservation)
+	groups     []dmMember    // multicast groups this UDP socket has joined (and not left)
+}
+
+// dmMember: a multicast group joined through an interface (0-based). Joining assigns the group address to
+// that interface - for as long as the membership lasts, i.e. until it is dropped or the socket is closed.
+type dmMember struct {
+	nic int
+	g   tcpip.Address
+}
+
+var dmGroups = []tcpip.Address{"\xe0\x00\x01\x02", "\xe0\x00\x01\x03", "\xe0\x00\x01\x04"}
+
+func (w *dmWorld) memberOf(nic int, g tcpip.Address) *dmSock {
+	for _, s := range w.socks {
+		if s.closed {
+			continue
+		}
+		for _, m := range s.groups {
+			if m.nic == nic && m.g == g {
+				return s
+			}
+		}
+	}
+	return nil
 }
 
 // fakeEP is a transport endpoint of the harness registered directly through
@@ -109,6 +133,9 @@ type dmWorld struct {
 }
 
 func (w *dmWorld) owned(nic int, dst tcpip.Address) bool {
+	if len(dst) == 4 && dst[0] == 0xe0 {
+		return w.memberOf(nic, dst) != nil || (nic == 0 && w.cfg.Promisc)
+	}
 	for i, a := range dmLocal {
 		if i > 0 && a == dst && dmNICof[i] == nic {
 			if i == 2 && w.addrOff {
@@ -567,6 +594,10 @@ func dmPayload(seed uint64, id int) []byte {
 // inject sends one packet and then reads every open socket.
 func (w *dmWorld) inject(isTCP bool, nic, di, pi, ri int) {
 	dst, dport := dmLocal[1+di%4], dmPorts[pi%4]
+	if di >= 8 && !isTCP {
+		dst = dmGroups[(di-8)%len(dmGroups)]
+		w.Probes["packets_to_multicast_groups"]++
+	}
 	src, sport := dmRAddr[ri%3], dmRPort[ri%3]
 	w.npkt++
 	payload := dmPayload(w.seed, w.npkt)
@@ -611,7 +642,14 @@ func (w *dmWorld) inject(isTCP bool, nic, di, pi, ri int) {
 		proto = codec.ProtoTCP
 	}
 	w.ipid++
-	w.Inject(link, ipv4.ProtocolNumber, codec.IPv4([]byte(src), []byte(dst), proto, w.ipid, 64, false, false, 0, seg), "", "", w.npkt%3)
+	if w.npkt%9 == 4 {
+		// the sender put IP options in front (record route, router alert): same packet, same addresses, same ports
+		o := [][]byte{codec.OptRecordRoute(1), codec.OptRouterAlert(), codec.OptRecordRoute(2)}[w.npkt%3]
+		w.Inject(link, ipv4.ProtocolNumber, codec.IPv4Opts([]byte(src), []byte(dst), proto, w.ipid, 64, false, false, 0, o, seg), "", "", w.npkt%3)
+		w.Probes["packets_with_ip_options"]++
+	} else {
+		w.Inject(link, ipv4.ProtocolNumber, codec.IPv4([]byte(src), []byte(dst), proto, w.ipid, 64, false, false, 0, seg), "", "", w.npkt%3)
+	}
 	w.Probes["packets_injected"]++
 	if !owned {
 		w.Probes["to_address_not_owned"]++
@@ -823,6 +861,32 @@ func (w *dmWorld) apply(s Step) {
 		w.Take()
 	case "udp":
 		w.inject(false, s.A, s.B, s.C, int(s.D))
+	case "mcast":
+		// a UDP socket joins a group through an interface, or drops one of its memberships
+		if s.A < 0 || s.A >= len(w.socks) {
+			break
+		}
+		sk := w.socks[s.A]
+		if sk.closed || sk.tcp || sk.fake != nil || sk.protos == 3 {
+			break
+		}
+		if s.C&2 != 0 && len(sk.groups) > 0 {
+			i := s.B % len(sk.groups)
+			m := sk.groups[i]
+			if e := sk.ep.SetSockOpt(tcpip.RemoveMembershipOption{NIC: tcpip.NICID(m.nic + 1), InterfaceAddr: "\x00\x00\x00\x00", MulticastAddr: m.g}); e == nil {
+				sk.groups = append(sk.groups[:i:i], sk.groups[i+1:]...)
+				w.Probes["multicast_groups_left"]++
+			}
+			break
+		}
+		nic, g := s.C&1, dmGroups[s.B%len(dmGroups)]
+		if w.memberOf(nic, g) != nil || w.cfg.Promisc || w.cfg.Subnet {
+			break // (one member per interface and group: a second join is refused, and is not what this step is about)
+		}
+		if e := sk.ep.SetSockOpt(tcpip.AddMembershipOption{NIC: tcpip.NICID(nic + 1), InterfaceAddr: "\x00\x00\x00\x00", MulticastAddr: g}); e == nil {
+			sk.groups = append(sk.groups, dmMember{nic, g})
+			w.Probes["multicast_groups_joined"]++
+		}
 	case "tcp":
 		w.inject(true, s.A, s.B, s.C, int(s.D))
 	case "adv":
@@ -836,6 +900,37 @@ func (w *dmWorld) next() Step {
 	weights := []int{6, 1, 10, 0, 1, 1, 1, 1}
 	if w.cfg.Binds {
 		weights = []int{8, 5, 3, 0, 1, 4, 1, 1}
+	}
+	if len(w.socks) > 0 && r.Chance(0.06) {
+		return Step{Op: "mcast", A: r.Intn(len(w.socks)), B: r.Intn(3), C: r.Pick(3, 3, 2, 2)}
+	}
+	for _, sk := range w.socks {
+		if !sk.closed && len(sk.groups) > 0 && r.Chance(0.15) {
+			m := sk.groups[r.Intn(len(sk.groups))]
+			gi := 0
+			for i, g := range dmGroups {
+				if g == m.g {
+					gi = i
+				}
+			}
+			pi := 0
+			for i, p := range dmPorts {
+				if p == sk.lport {
+					pi = i
+				}
+			}
+			st := Step{Op: "udp", A: m.nic, B: 8 + gi, C: pi, D: int64(r.Intn(3))}
+			if r.Chance(0.2) {
+				st.A = 1 - st.A
+			}
+			if r.Chance(0.2) {
+				st.B = 8 + r.Intn(3)
+			}
+			return st
+		}
+	}
+	if r.Chance(0.02) {
+		return Step{Op: "udp", A: r.Intn(2), B: 8 + r.Intn(3), C: r.Intn(3), D: int64(r.Intn(3))}
 	}
 	switch r.Pick(weights...) {
 	case 6:
